@@ -4,6 +4,7 @@ import (
 	"bytes"
 	"context"
 	"encoding/json"
+	"errors"
 	"fmt"
 	"sort"
 	"strings"
@@ -17,6 +18,12 @@ type Map struct {
 	// Used to avoid the possibility of infinite recursion when inspecting.
 	// Similar to the usage of Py_ReprEnter in CPython.
 	inspectActive bool
+
+	// Used in the same way while comparing (a map can contain itself).
+	compareActive bool
+
+	// Likewise while converting to Go values or JSON.
+	convertActive bool
 }
 
 func (m *Map) Type() Type {
@@ -292,6 +299,11 @@ func (m *Map) Size() int {
 }
 
 func (m *Map) Interface() interface{} {
+	if m.convertActive {
+		return nil // the map contains itself: the inner occurrence becomes nil
+	}
+	m.convertActive = true
+	defer func() { m.convertActive = false }()
 	result := make(map[string]any, len(m.items))
 	for k, v := range m.items {
 		result[k] = v.Interface()
@@ -307,6 +319,11 @@ func (m *Map) Equals(other Object) Object {
 	if len(m.items) != len(otherMap.items) {
 		return False
 	}
+	if m.compareActive {
+		return True
+	}
+	m.compareActive = true
+	defer func() { m.compareActive = false }()
 	for k, v := range m.items {
 		otherValue, found := otherMap.items[k]
 		if !found {
@@ -398,6 +415,11 @@ func (m *Map) Cost() int {
 }
 
 func (m *Map) MarshalJSON() ([]byte, error) {
+	if m.convertActive {
+		return nil, errors.New("value error: cannot marshal a map that contains itself")
+	}
+	m.convertActive = true
+	defer func() { m.convertActive = false }()
 	return json.Marshal(m.items)
 }
 
